@@ -384,7 +384,7 @@ def run_case(seed, idx, tier, rec):
     gen = resgen.gen_result(rng, plot_safe=with_plots)
     res, kind = gen['result'], gen['kind']
     case = {'seed': seed, 'idx': idx, 'tier': tier}
-    rec.count('evaluations')
+    rec.count('results')
     truth = bool(res)
     reps = [('table', TableRepresenter), ('fulltable', FullTableRepresenter)]
     if with_plots:
@@ -405,6 +405,7 @@ def run_case(seed, idx, tier, rec):
                               f'{where}: {err!r}', case)
                 continue
             rec.count('renderings')
+            rec.count('evaluations')      # one evaluation = one rendering
             doc, warn = rstback.parse(text)
             if doc is None or warn.strip():
                 rec.violation(f'invalid-rst-{tag}', f'{where}: '
